@@ -358,7 +358,11 @@ func (r *Run) assert(cond value, msg string, pos string) {
 	// violated
 	m := map[string]string{}
 	for _, n := range r.nondets {
-		if n.term != nil && n.term.isCon && n.term.sort == SInt {
+		if n.term == nil {
+			if r.concrete != nil {
+				m[n.Name] = r.concrete[n.Name]
+			}
+		} else if n.term.isCon && n.term.sort == SInt {
 			m[n.Name] = n.term.ival.String()
 		} else if v, ok := model[n.term.name]; ok {
 			m[n.Name] = v
@@ -396,7 +400,11 @@ func (r *Run) modelSample() map[string]string {
 	}
 	m := map[string]string{}
 	for _, n := range r.nondets {
-		if n.term != nil && n.term.isCon && n.term.sort == SInt {
+		if n.term == nil {
+			if r.concrete != nil {
+				m[n.Name] = r.concrete[n.Name]
+			}
+		} else if n.term.isCon && n.term.sort == SInt {
 			m[n.Name] = n.term.ival.String()
 		} else if v, ok := model[n.term.name]; ok {
 			m[n.Name] = v
